@@ -1,7 +1,7 @@
 (* Properties_C13.v — property C13: coordination-graph maximisers return what they claim.
    Only statements, each closed by [exact <lemma>] and followed by Print Assumptions. *)
 From Coq Require Import List Arith QArith Lia.
-From AIT Require Import C13.Model C13.Spec C13.ProofsBase C13.ProofsGraph C13.Proofs C13.ProofsLS.
+From AIT Require Import C13.Model C13.Spec C13.ProofsBase C13.ProofsGraph C13.Proofs C13.ProofsLS C13.ProofsMO1 C13.ProofsMO3 C13.ProofsMO5 C13.ProofsSqrt.
 Import ListNotations.
 Local Open Scope nat_scope.
 
@@ -57,17 +57,56 @@ Theorem approx_le_opt : forall A rs order res vres,
 Proof. exact approx_le_ve_lemma. Qed.
 Print Assumptions approx_le_opt.
 
-(* MOVE as written does NOT return the Pareto front when a local joint action has no rule
-   (the property counts such entries as zero vectors): on 3 binary agents with the single rule
-   {0,1,2} = (0,0,1) -> (-1,-2) the model of the code (which the correspondence check ties to
-   the real MultiObjectiveVariableElimination on every run) returns the vector (-1,-2), which
-   the joint action (0,0,0), paying (0,0), strictly dominates. *)
+(* Multi-objective Variable Elimination (the REPAIRED code of
+   fixes/C13-move-ucve-unmentioned-zero.patch: an action that no rule mentions counts as a zero
+   vector) returns exactly the Pareto front, for EVERY rule set (missing entries included) and
+   EVERY elimination order:
+   - every returned entry is the payoff vector of an in-range joint action that extends its tag,
+     and no joint action strictly dominates it;
+   - every non-dominated payoff vector is returned -- except in the degenerate case where all
+     joint actions pay the zero vector and no rule survives, in which the result is empty
+     (the result type cannot then even carry the number of objectives d). *)
+Theorem move_pareto : forall (A : list nat) (rs : list mo_rule) (order : list nat) (d : nat),
+  (forall i, i < length A -> 0 < nth i A 0) ->
+  Forall (fun r : mo_rule => fst (fst r) <> [] /\
+            Forall2 (fun k x => k < length A /\ x < nth k A 0) (fst (fst r)) (snd (fst r))) rs ->
+  is_perm_seq (length A) order ->
+  (forall e, In e (move A rs order) ->
+     exists b, inr A b /\ compat (fst (snd e)) (snd (snd e)) b = true /\
+               (forall k, (nth k (fst e) 0 == nth k (mo_payoff (repeat 0 d) rs b) 0)%Q) /\
+               forall b', inr A b' -> strictly_dominates (mo_payoff (repeat 0%Q d) rs b') (fst e) = false) /\
+  (forall b, inr A b ->
+     (forall b', inr A b' -> strictly_dominates (mo_payoff (repeat 0%Q d) rs b') (mo_payoff (repeat 0%Q d) rs b) = false) ->
+     (exists e, In e (move A rs order) /\ forall k, (nth k (fst e) 0 == nth k (mo_payoff (repeat 0 d) rs b) 0)%Q) \/
+     (move A rs order = [] /\ forall a k, inr A a -> (nth k (mo_payoff (repeat 0 d) rs a) 0 == 0)%Q)).
+Proof. exact move_pareto_lemma. Qed.
+Print Assumptions move_pareto.
+
+(* non-vacuous: the witness of the old defect -- 3 binary agents, a single rule with a negative
+   vector, all other entries missing: the repaired model returns the zero vector, not (-1,-2) *)
 Definition mo_wit_rules : list mo_rule := [ (([0; 1; 2], [0; 0; 1]), [((-1) # 1)%Q; ((-2) # 1)%Q]) ].
-Theorem move_pareto_refuted : exists (A : list nat) (rs : list mo_rule) (order : list nat) (e : mo_entry) (a : list nat),
-  is_perm_seq (length A) order /\ In e (move A rs order) /\ inr A a /\
-  strictly_dominates (mo_payoff [0%Q; 0%Q] rs a) (fst e) = true.
-Proof. exact move_pareto_refuted_lemma. Qed.
-Print Assumptions move_pareto_refuted.
+Example ex_move_nonvacuous :
+  map fst (move [2; 2; 2] mo_wit_rules [0; 1; 2]) = [[0%Q; 0%Q]] /\
+  strictly_dominates [0%Q; 0%Q] [((-1) # 1)%Q; ((-2) # 1)%Q] = true.
+Proof. split; vm_compute; reflexivity. Qed.
+
+(* The oracle's comparison of upper confidence bounds  x + sqrt p  vs  y + sqrt q  (UCVE) is
+   exact: when the test answers true, x + s <= y + t for every rational lower bound s of sqrt p
+   and upper bound t of sqrt q; when it answers false, y + t < x + s for every rational upper
+   bound s of sqrt p and lower bound t of sqrt q.  (By density of Q these two say: the test
+   returns true iff x + sqrt p <= y + sqrt q.  No real numbers, no axioms.) *)
+Theorem sqrt_sum_le_true_sound : forall x p y q : Q, (0 <= p)%Q -> (0 <= q)%Q -> sqrt_sum_le x p y q = true ->
+  forall s t : Q, (0 <= s)%Q -> (0 <= t)%Q -> (s * s <= p)%Q -> (q <= t * t)%Q -> (x + s <= y + t)%Q.
+Proof. exact sqrt_sum_le_true_lemma. Qed.
+Print Assumptions sqrt_sum_le_true_sound.
+
+Theorem sqrt_sum_le_false_sound : forall x p y q : Q, (0 <= p)%Q -> (0 <= q)%Q -> sqrt_sum_le x p y q = false ->
+  forall s t : Q, (0 <= s)%Q -> (0 <= t)%Q -> (p <= s * s)%Q -> (t * t <= q)%Q -> (y + t < x + s)%Q.
+Proof. exact sqrt_sum_le_false_lemma. Qed.
+Print Assumptions sqrt_sum_le_false_sound.
+
+Example ex_sqrt_sum_le : sqrt_sum_le (11 # 4) 10 (7 # 2) 6 = true /\ sqrt_sum_le (7 # 2) 6 (11 # 4) 10 = false.
+Proof. split; vm_compute; reflexivity. Qed.
 
 (* hypotheses are satisfiable on a non-trivial input: 3 agents (agent 2 unmentioned), overlapping
    and nested key sets, a duplicate rule, a negative payoff, missing entries; eliminated in the
